@@ -3,7 +3,8 @@
    specification = Spec/Kalman.v (per-feature textbook step). *)
 From Coq Require Import ZArith List Bool QArith Qcanon.
 From Centro Require Import Gen.ConstsC09 Model.Kalman Spec.Kalman Proofs.KalmanHist Proofs.KalmanAlg Proofs.KalmanGain Proofs.KalmanRefine
-  Proofs.KalmanArith Proofs.KalmanInv34 Proofs.KalmanParity Proofs.KalmanAssoc.
+  Proofs.KalmanArith Proofs.KalmanInv34 Proofs.KalmanParity Proofs.KalmanAssoc
+  Proofs.KalmanDetBase Proofs.KalmanDetRow Proofs.KalmanDetAlt Proofs.KalmanAdj Proofs.KalmanSym.
 Import ListNotations.
 Open Scope nat_scope.
 
@@ -140,9 +141,10 @@ Proof. exact (fun x y => conj (qmul_eq x y) (conj (qadd_eq x y) (qsub_eq x y))).
 Print Assumptions C09_shortcut_ops.
 
 (* PARTIAL (sizes 1..4 of all n; the permutation-expansion determinant, cofactors and adjugate of
-   inv_n / det_n / cofactor_n as written).  Missing for general n: the Laplace expansion along an
-   arbitrary row and the alternating property (equal rows give determinant 0) of the
-   permutation-expansion determinant. *)
+   inv_n / det_n / cofactor_n as written): TWO-sided inverse of an arbitrary matrix.  Round 3 proves
+   for every n the right inverse (C09_inv_n_right_inverse) and, for symmetric matrices, the left
+   inverse (C09_inv_n_left_inverse_sym).  Still missing for n >= 5: the left inverse of a
+   NON-symmetric matrix (needs det A^T = det A for the permutation expansion). *)
 Theorem C09_inv_n_correct_partial : forall (A : mat) (n : nat), 1 <= n <= 4 -> length A = n ->
   Forall (fun row => length row = n) A -> det1 A <> 0%Qc ->
   mmul A (inv1 A) = ident n /\ mmul (inv1 A) A = ident n.
@@ -196,3 +198,69 @@ Theorem C09_parity_cycles_inversions : forall (n : nat) (p : list nat), n <= 5 -
   In p (permutations (seq 0 n)) -> parity_cycles p = parity p.
 Proof. exact parity_cycles_inversions. Qed.
 Print Assumptions C09_parity_cycles_inversions.
+
+(* ---------------------------------------------------------------------------------- round 3 *)
+
+(* FULL, every n.  det_n of the model IS the sum over permutations(range(n)) of prod_i m[i, p_i] *
+   parity(p) (ldet on the entries), cofactor_n the same on the minor. *)
+Theorem C09_det1_ldet : forall m : mat, det1 m = ldet (length m) (entry m).
+Proof. exact det1_ldet. Qed.
+Print Assumptions C09_det1_ldet.
+
+Theorem C09_cofactor1_ldet : forall (m : mat) (i j : nat), i < length m ->
+  cofactor1 m i j = ldet (pred (length m)) (minor (entry m) i j).
+Proof. exact cofactor1_ldet. Qed.
+Print Assumptions C09_cofactor1_ldet.
+
+(* FULL, every n.  The permutation-expansion determinant changes sign under an adjacent row swap,
+   vanishes when two rows are equal, expands along ANY row (Laplace), and the cofactors of one
+   row against another row sum to zero. *)
+Theorem C09_det_swap_rows : forall (i n : nat) (M : fmat), S i < n ->
+  ldet n (fun a b => M (tau i a) b) = (- ldet n M)%Qc.
+Proof. exact ldet_swap_rows. Qed.
+Print Assumptions C09_det_swap_rows.
+
+Theorem C09_det_equal_rows : forall (n d i : nat) (M : fmat), i + S d < n ->
+  (forall b, M i b = M (i + S d) b) -> ldet n M = 0%Qc.
+Proof. exact ldet_eq_rows. Qed.
+Print Assumptions C09_det_equal_rows.
+
+Theorem C09_det_laplace_row : forall (n k : nat) (M : fmat), k <= n ->
+  ldet (S n) M = bigsum (fun j => (M k j * sgn (k + j) * ldet n (minor M k j))%Qc) (seq 0 (S n)).
+Proof. exact ldet_row. Qed.
+Print Assumptions C09_det_laplace_row.
+
+Theorem C09_det_alien_cofactors : forall (n k i : nat) (M : fmat), k <= n -> i <= n -> i <> k ->
+  bigsum (fun j => (M i j * sgn (k + j) * ldet n (minor M k j))%Qc) (seq 0 (S n)) = 0%Qc.
+Proof. exact ldet_alien. Qed.
+Print Assumptions C09_det_alien_cofactors.
+
+(* FULL, every n.  A * adj(A) = det(A) * I in the model's own terms (cofactor_n with the sign
+   (1 - ((i + j) % 2) * 2) of inv_n). *)
+Theorem C09_adjugate : forall (A : mat) (n i k : nat), length A = S n -> i <= n -> k <= n ->
+  bigsum (fun j => (entry A i j * (cofactor1 A k j * sgn (j + k)))%Qc) (seq 0 (S n)) =
+  if Nat.eqb i k then det1 A else 0%Qc.
+Proof. exact adjugate_row. Qed.
+Print Assumptions C09_adjugate.
+
+(* FULL, every n.  inv_n returns a right inverse. *)
+Theorem C09_inv_n_right_inverse : forall (A : mat) (n : nat), 1 <= n -> length A = n ->
+  Forall (fun row => length row = n) A -> det1 A <> 0%Qc -> mmul A (inv1 A) = ident n.
+Proof. exact inv_n_right_inverse. Qed.
+Print Assumptions C09_inv_n_right_inverse.
+
+(* FULL, every n, symmetric matrices (the innovation covariance).  inv_n returns a left inverse. *)
+Theorem C09_inv_n_left_inverse_sym : forall (S : mat) (n : nat), 1 <= n -> length S = n ->
+  Forall (fun row => length row = n) S -> mtrans S = S -> det1 S <> 0%Qc -> mmul (inv1 S) S = ident n.
+Proof. exact inv_n_left_inverse_sym. Qed.
+Print Assumptions C09_inv_n_left_inverse_sym.
+
+(* FULL, EVERY obs_len, no left-inverse hypothesis.  The gain solves K S = P H^T whenever the
+   innovation covariance S = H P H^T + r is symmetric (it is for symmetric P and r) and non-singular. *)
+Theorem C09_gain_equation_every_obs_len : forall (H Pp r : mat) (n : nat),
+  let S := innovation_cov H Pp r in
+  1 <= n -> length S = n -> Forall (fun row => length row = n) S -> mtrans S = S -> det1 S <> 0%Qc ->
+  Forall (fun row => length row = n) (mmul Pp (mtrans H)) ->
+  mmul (gain H Pp r) S = mmul Pp (mtrans H).
+Proof. exact gain_equation_sym. Qed.
+Print Assumptions C09_gain_equation_every_obs_len.
